@@ -2,6 +2,7 @@ package sim
 
 import (
 	"context"
+	crand "crypto/rand"
 	"fmt"
 	"strings"
 	"sync"
@@ -170,9 +171,22 @@ func WireAddrOf(name string) map[wallet.BackendID]wire.Address {
 // NewParty creates a party named name using pool key keyIdx, subscribes it to
 // the bus and starts its request loop.  watch=false disables Channel.Watch.
 func (e *Env) NewParty(name string, keyIdx int, watch bool) (*Party, error) {
-	p := &Party{Name: name, Env: e, Acc: gen.Acc(keyIdx), chans: map[channel.ID]*client.Channel{},
+	acc := (*simwallet.Account)(nil)
+	if keyIdx < 0 {
+		// a fresh key: needed when several worlds run concurrently, because closing a
+		// client locks the account objects of its wallet
+		acc = simwallet.NewRandomAccount(crand.Reader)
+	} else {
+		acc = gen.Acc(keyIdx)
+	}
+	p := &Party{Name: name, Env: e, Acc: acc, chans: map[channel.ID]*client.Channel{},
 		newChan: make(chan *client.Channel, 64), noWatch: !watch, handleDone: make(chan struct{})}
-	p.Wallet = simwallet.NewRestoredWallet(p.Acc)
+	// not NewRestoredWallet: that locks the account until a channel is created, but the
+	// harness also signs with keys of parties that never open a channel
+	p.Wallet = simwallet.NewWallet()
+	if err := p.Wallet.AddAccount(p.Acc); err != nil {
+		return nil, err
+	}
 	p.WireAddr = WireAddrOf(name)
 	p.View = e.Ledger.For(name, p.Acc.Address())
 	w, err := local.NewWatcher(e.Ledger.For(name+"/watcher", p.Acc.Address()))
